@@ -61,8 +61,8 @@ PROP = {
                 "harness/extract11 (go/ast census extractor) and its committed expectation known/c11_census_expected.json (each site read by hand)",
                 "External parsers/compilers used as well-formedness judges: go build against /repo/lib/go, CPython compile() (2.7.18 for py and py:tornado, 3.x for py:asyncio), javac's parser (JavacTask.parse, no attribution), encoding/json, Python's html.parser (tag balance), our bracket/string/comment balance lexer for Dart",
                 "The harness's classification of a run (exit status, output patterns for Go runtime crashes, 20 s watchdog; an exit-1 run is re-executed in-process under recover to tell a recovered panic from a returned error exactly)"],
-    "level_text": "Theorems (Lean 4) about an executable model of the shared front end (parseFrugal's include traversal, (*Frugal).validate with all its parts in code order, isValidType, the typedef step shared by UnderlyingType and the new cycle check, UnderlyingType itself with running out of stack as an explicit outcome) and of the Go casing path (snakeToCamel, title, titleServiceName, LowercaseFirstLetter, includeNameToReference, CleanGenParam) that keeps Go's run-time checks as explicit panic outcomes: for EVERY identifier string the Go casing helpers and -gen parsing never panic; on EVERY validated file typedef resolution terminates for every type within (number of visible typedefs + 2) frames, so the stack overflow is unreachable; EVERY typedef cycle of any length (also through includes) is rejected with an error, never a panic; on every validated file no modelled panic site of the Go path is reachable; validate accepts exactly when its ten parts do; every syntactically partial operation of main.go and compiler/** (173 sites, regenerated from source on every run) is classified. Tied to the code by in-process correspondence of the real functions with the model (verdict and error class of parse+validate on valid and injected-invalid programs, UnderlyingType results, casing helpers on random strings) and by compiling random valid / invalid / mutated / arbitrary inputs with the real binary for all 8 targets, judging every emitted file with an external parser or compiler.",
-    "level_note": "PARTIAL, named plainly. (1) That every emitted file is well-formed source for its target is NOT a Lean theorem (no formal grammar of Go/Java/Dart/Python/HTML here): it is validated on the sampled programs only, by external parsers/compilers (Go: full type-check with go build against /repo/lib/go; Python: compile(); Java: javac parse only, no attribution; JSON: parse; HTML: tag balance; Dart: bracket/string/comment balance only — no Dart SDK in the sandbox). (2) The theorems cover panic-freedom and termination of the MODELLED sites of the shared front end and of the Go casing path; the Java/Dart/Python/HTML/JSON generator bodies are censused (every panic(, unchecked type assertion, constant index/slice, self-recursion is classified, each site read) but modelled only where shared (validate, UnderlyingType, LowercaseFirstLetter). compiler/parser/grammar.peg.go (generated by pigeon; its action code's assertions are shape-guaranteed by the grammar rules) is outside the census; it is exercised by the mutated/arbitrary texts. (3) c11_valid_front_ok_partial takes 'valid' as 'validate returned nil'; a declarative Valid predicate with Valid => validate = ok is missing as a theorem (checked per generated program by op val). c11_invalid_diagnosed_partial covers the type-resolution kinds; the duplicate-name/id, oneway and include kinds are implemented in the model and compared by error CLASS with the real verdict on injected invalidities, not proved. (4) recovered-panic (main.go's recover -> 'Failed to generate', exit 1) is tolerated ONLY for the invalidity kinds nothing validates — read off the code: constant/default values that do not fit their type, unresolved Enum.VALUE / constant references inside values, duplicate struct/enum/typedef/constant/field/enum-value names, unknown or cyclic extends, duplicate ids in throws; for those even exit 0 is tolerated and recorded as finding unchecked-semantic-errors; a crash, hang or silent failure is never tolerated; for every kind validate/parseFrugal checks (28) the oracle demands a diagnostic. On mutated/arbitrary texts a recovered panic is tolerated only when its message is one of the explicit panic(...) calls of constant-value generation (census class const-value); run-time errors (index, nil, slice) are violations. (5) 18 recorded findings restrict the valid stream (KNOWN_FINDINGS.txt); each witness is replayed on every run.",
+    "level_text": "Theorems (Lean 4) about an executable model of the shared front end (parseFrugal's include traversal, (*Frugal).validate with all its parts in code order, isValidType, the typedef step shared by UnderlyingType and the new cycle check, UnderlyingType itself with running out of stack as an explicit outcome) and of the Go casing path (snakeToCamel, title, titleServiceName, LowercaseFirstLetter, includeNameToReference, CleanGenParam) that keeps Go's run-time checks as explicit panic outcomes, against a declarative specification Valid / ValidProg written over the abstract syntax without calling any validator (names of every referenced type resolve — field, argument, return, throws, typedef target, scope operation, constant —, constant references resolve, typedef graph acyclic, field ids unique per struct-like and per argument list, service/method/scope/operation names distinct up to first-letter case, oneway methods void and without throws, no duplicate include, includes resolve and are acyclic): validate returns nil EXACTLY on the valid files (both directions, so Valid is decidable); a valid program is accepted by the whole front end and reaches no modelled panic site on the Go path; every file that is not Valid gets an ERROR from validate, never a panic (18 invalidity kinds one by one, plus missing / circular / badly named includes); for EVERY identifier string the Go casing helpers and -gen parsing never panic; on EVERY validated file typedef resolution terminates for every type within (visible typedefs + 2) frames, so the stack overflow is unreachable; EVERY typedef cycle is rejected (the bounded walk is exact: pigeonhole); every syntactically partial operation of main.go and compiler/** (173 sites, regenerated from source on every run) is classified. Tied to the code by in-process correspondence of the real functions with the model (verdict and error class of parse+validate on valid and injected-invalid programs, UnderlyingType results, casing helpers on random strings) and by compiling random valid / invalid / mutated / arbitrary inputs with the real binary for all 8 targets, judging every emitted file with an external parser or compiler.",
+    "level_note": "PARTIAL, named plainly. (1) That every emitted file is well-formed source for its target is NOT a Lean theorem (no formal grammar of Go/Java/Dart/Python/HTML here): it is validated on the sampled programs only, by external parsers/compilers (Go: full type-check with go build against /repo/lib/go; Python: compile(); Java: javac parse only, no attribution; JSON: parse; HTML: tag balance; Dart: bracket/string/comment balance only — no Dart SDK in the sandbox). (2) The theorems cover panic-freedom and termination of the MODELLED sites of the shared front end and of the Go casing path; the Java/Dart/Python/HTML/JSON generator bodies are censused (every panic(, unchecked type assertion, constant index/slice, self-recursion is classified, each site read) but modelled only where shared (validate, UnderlyingType, LowercaseFirstLetter). compiler/parser/grammar.peg.go (generated by pigeon; its action code's assertions are shape-guaranteed by the grammar rules) is outside the census; it is exercised by the mutated/arbitrary texts. (3) Valid is exactly what validate is responsible for, NOT all of Thrift validity: duplicate struct/enum/typedef/constant/field names, constant values that do not fit their type, unknown or cyclic extends, duplicate ids in throws are checked by nothing in frugal and are therefore not in Valid (c11_unknown_extends_accepted_counterexample); constant-VALUE generation (generateConstantValue's type assertions) is censused (class const-value), not modelled, so 'valid => no panic' does not cover ill-typed constant values. ValidProg lists the files so that each includes only later ones (= acyclic) and uses .frugal includes in one directory. (4) recovered-panic (main.go's recover -> 'Failed to generate', exit 1) is tolerated ONLY for the invalidity kinds nothing validates — read off the code: constant/default values that do not fit their type, unresolved Enum.VALUE / constant references inside values, duplicate struct/enum/typedef/constant/field/enum-value names, unknown or cyclic extends, duplicate ids in throws; for those even exit 0 is tolerated and recorded as finding unchecked-semantic-errors; a crash, hang or silent failure is never tolerated; for every kind validate/parseFrugal checks (28) the oracle demands a diagnostic. On mutated/arbitrary texts a recovered panic is tolerated only when its message is one of the explicit panic(...) calls of constant-value generation (census class const-value); run-time errors (index, nil, slice) are violations. (5) 18 recorded findings restrict the valid stream (KNOWN_FINDINGS.txt); each witness is replayed on every run.",
     "assumptions": ["identifiers avoid target-language reserved words and the names of locals/members of the generated code (prefix variable topic/prefix/op, method c/methods, argument args/result)",
                     "declared names of one scope are distinct after removing underscores and case (no two declarations collide under any target's case conversion)",
                     "ASCII identifiers and string constants (the grammar's Identifier is ASCII)",
